@@ -6,6 +6,10 @@
 package main
 
 import (
+	"github.com/docker/docker/pkg/reexec"
+	"github.com/openebs/sparse-tools/cli/sfold"
+	"github.com/openebs/sparse-tools/cli/ssync"
+
 	"flag"
 	"fmt"
 	"os"
@@ -16,6 +20,12 @@ import (
 )
 
 func main() {
+	// the sync agent re-executes the running binary as "sfold"/"ssync" (docker reexec), exactly as jiva's main does
+	reexec.Register("sfold", sfold.Main)
+	reexec.Register("ssync", ssync.Main)
+	if reexec.Init() {
+		return
+	}
 	if len(os.Args) < 2 {
 		usage()
 	}
